@@ -546,6 +546,8 @@ def run_driver(case, tape):
             span = max(10.0, r['sim_time'])
             budget = max(2, int(case.get('budget_frac', 0.5) * span))
             bsched = dict(quiet, clock_span=span)
+            if bsched.get('clock') == 'exact' and case.get('budget_frac', 0.5) < 0.7:
+                bsched['clock'] = 'all'
             # first leg
             if case['stop'] == 'tEnd':
                 r1 = _driver_world(M, P1, case['g1'], quiet, base, [N * dt, big, '-c', cfile, '-s', s] + fB)
